@@ -333,20 +333,24 @@ Qed.
 Lemma hist_only k ws : hist k (only k ws) = hist k ws.
 Proof. apply hist_only_gen. Qed.
 
-Lemma unflushed_no_nl k ws : nl_only_at_end ws -> has_nl (unflushed k ws) = false.
+Lemma unflushed_no_nl k ws : nl_only_at_end_for k ws -> has_nl (unflushed k ws) = false.
 Proof.
   unfold unflushed.
   induction ws as [|[a s] ws IH] using rev_ind; auto.
   intro H. rewrite hist_snoc; simpl.
-  assert (H' : nl_only_at_end ws).
-  { intros a' s' I Hs; apply (H a' s'); auto; apply in_or_app; auto. }
+  assert (H' : nl_only_at_end_for k ws).
+  { intros s' I Hs; apply (H s'); auto; apply in_or_app; auto. }
   specialize (IH H').
-  destruct (key_eqb a k); auto.
+  destruct (key_eqb a k) eqn:Ek; auto.
+  apply key_eqb_eq in Ek; subst a.
   destruct (ends_nl s) eqn:E; simpl; auto.
   rewrite has_nl_app, IH; simpl.
   destruct (has_nl s) eqn:Hs; auto.
-  rewrite (H a s) in E; auto. apply in_or_app; right; simpl; auto.
+  rewrite (H s) in E; auto. apply in_or_app; right; simpl; auto.
 Qed.
+
+Lemma nl_only_at_end_all ws k : nl_only_at_end ws -> nl_only_at_end_for k ws.
+Proof. intros H s I; apply (H k s I). Qed.
 
 (** ** the statements used by Props/C13.v *)
 
@@ -393,11 +397,16 @@ Proof.
   - symmetry; apply I; auto.
 Qed.
 
+Lemma model_upto_partial_per_trace ws n :
+  n <> 0 -> nl_only_at_end_for (Some n) ws ->
+  reported_of (Some n) (events ws) = upto_last_nl (writes_of (Some n) ws).
+Proof. intros Hn H. apply model_upto_iff; auto. apply unflushed_no_nl; auto. Qed.
+
 Lemma model_upto_partial ws :
   nl_only_at_end ws ->
   forall n, n <> 0 ->
   reported_of (Some n) (events ws) = upto_last_nl (writes_of (Some n) ws).
-Proof. intros H n Hn. apply model_upto_iff; auto. apply unflushed_no_nl; auto. Qed.
+Proof. intros H n Hn. apply model_upto_partial_per_trace; auto. apply nl_only_at_end_all; auto. Qed.
 
 Lemma model_interleaving ws n :
   n <> 0 ->
